@@ -886,9 +886,15 @@ class EditableParentImpl(BaseParentImpl):
             space, cells, param,
             space_params, cells_params)
 
+    def _check_ref_name(self, name):
+        # A value must not be assigned to a cells of the same name
+        if name in self.namespace and name not in self.refs:
+            raise KeyError("cannot assign '%s'" % name)
+
     def new_excel_range(self, name, path, range_, sheet, keyids, loadpath):
 
         from modelx.io.excelio import ExcelRange
+        self._check_ref_name(name)
 
         cargs = {"range_": range_,
                  "sheet": sheet,
@@ -912,6 +918,7 @@ class EditableParentImpl(BaseParentImpl):
     def new_pandas(self, name, path, data, file_type, sheet):
 
         from modelx.io.pandasio import PandasData
+        self._check_ref_name(name)
         spec = self.system.iomanager.new_spec(
             PandasData,
             io_group=self.model.interface,
@@ -930,6 +937,7 @@ class EditableParentImpl(BaseParentImpl):
     def new_module(self, name, path, module):
 
         from modelx.io.moduleio import ModuleData
+        self._check_ref_name(name)
 
         spec = self.system.iomanager.new_spec(
             ModuleData,
